@@ -54,6 +54,7 @@ class LiveWorld:
         self.truthful = truthful   # the double never reports BET_TAKEN_OR_LAPSED for a bet that is still resting
         self.stream_first = None   # callable(bets): the order stream is processed before the REST response is handled
         self.pending = []          # captured packages not yet executed
+        self.executing = None
         self.fw.betfair_execution.handler = lambda p: self.pending.append(p)
         self.strategies = []
         for nm in strategy_names:
@@ -117,6 +118,7 @@ class LiveWorld:
         from flumine.order.orderpackage import OrderPackageType
         kind = package.package_type
         ex = self.fw.betfair_execution
+        self.executing = package      # its response is on its way: still outstanding while the stream overtakes it
         attempts = {"n": 0}
         orders_at_call = list(package)
         reports = []
@@ -134,7 +136,7 @@ class LiveWorld:
         self.betting.replace_orders = api
         # retries re-enter through execution.handler: run them synchronously, without the back-off sleep
         chain = []
-        ex.handler = lambda p: chain.append(p)
+        ex.handler = lambda p: (chain if p is package else self.pending).append(p)      # a retry of this package | a new request made meanwhile
         session = mock.Mock(time_created=0, time_returned=0)
         with mock.patch("time.sleep"):
             func = {OrderPackageType.PLACE: ex.execute_place, OrderPackageType.CANCEL: ex.execute_cancel,
@@ -143,6 +145,7 @@ class LiveWorld:
             while chain:
                 func(chain.pop(0), session)
         ex.handler = lambda p: self.pending.append(p)
+        self.executing = None
         self.calls_per_package[id(package)] = attempts["n"]
         answered = attempts["n"] > errors
         return answered, attempts["n"], orders_at_call, reports
@@ -227,7 +230,7 @@ class LiveWorld:
                     rem = bet["remaining"]
                     bet.update(cancelled=bet["cancelled"] + rem, remaining=0.0, status="EXECUTION_COMPLETE")
                     if prep["status"] == "SUCCESS":
-                        nb = self.ex.new_bet(o.customer_order_ref, rem, self.market_id, o.selection_id)
+                        nb = self.ex.new_bet(bet["ref"], rem, self.market_id, o.selection_id)      # a replacement bet keeps the reference of the bet it replaces (also along a chain)
                         nb["price"] = ins["newPrice"]
                         nb["replaces"] = bet["bet_id"]
                         prep.update(orderStatus="EXECUTABLE", betId=str(nb["bet_id"]), sizeMatched=0.0, averagePriceMatched=0.0,
